@@ -24,6 +24,7 @@ import (
 // C05 — CRL yields OK only if every distribution point gave an authentic, current CRL.
 
 type crlWorld struct {
+	prefix   string // URL prefix of this certificate's distribution points
 	root     *pki.Cert
 	leaf     *pki.Cert
 	otherKey *pki.Key
@@ -39,7 +40,7 @@ type crlArtefact struct {
 }
 
 func newCRLWorld(issuerKey string, nDP int, freshestInCert bool, issuerCRLSign bool, ocspURLs []string) *crlWorld {
-	w := &crlWorld{otherKey: pki.K("p384-b")}
+	w := &crlWorld{otherKey: pki.K("p384-b"), prefix: "http://crl.test"}
 	rt := pki.RootTmpl("c05 issuer")
 	if !issuerCRLSign {
 		rt.KeyUsage = x509.KeyUsageCertSign
@@ -77,11 +78,10 @@ func crlBehaviours() []crlBehaviour {
 		return pki.CRLEntry{Serial: w.leaf.X.SerialNumber, Reason: 1, RevokedAt: pki.Now.Add(-3 * time.Hour)}
 	}
 	otherEntry := pki.CRLEntry{Serial: big.NewInt(990099), Reason: 1, RevokedAt: pki.Now.Add(-3 * time.Hour)}
-	deltaURL := func(dp int) string { return fmt.Sprintf("http://crl.test/dp%d/delta", dp) }
 	baseSpec := func(w *crlWorld, dp int, withDelta bool) pki.CRLSpec {
 		s := pki.CRLSpec{Issuer: w.root, Number: baseNum, NextUpdate: fresh}
 		if withDelta {
-			s.Freshest = pki.CDPValue([][]string{{"uri:" + deltaURL(dp)}})
+			s.Freshest = pki.CDPValue([][]string{{"uri:" + fmt.Sprintf("%s/dp%d/delta", w.prefix, dp)}})
 		}
 		return s
 	}
@@ -487,7 +487,9 @@ func init() {
 			"a panic is recorded as 'not OK' here and judged by C09"},
 		Init:      c05Init,
 		Scenarios: c05Scenarios,
-		Alphabet:  func(mc.Tier) map[string]int { return map[string]int{"bundle_behaviours": len(c05Behaviours), "max_distribution_points": 3} },
+		Alphabet: func(mc.Tier) map[string]int {
+			return map[string]int{"bundle_behaviours": len(c05Behaviours), "max_distribution_points": 3}
+		},
 		Guards: func(s *mc.Stats, t mc.Tier) []string {
 			var w []string
 			for _, o := range []string{"verdict:OK", "verdict:Revoked", "verdict:Unknown"} {
